@@ -106,6 +106,22 @@ def gen_case(rng):
     base = sc.gen_model(rng)
     return {'model': templatise(rng, base)}
 
+def corpus():
+    """fixed cases: a model with a table form next to unused [Variables] entries named like the keys of a table-form section (x, y, xy,
+    interpolation) and like options of [Tabulation]: defining variables that are not referenced changes no section"""
+    out = []
+    for k, names in enumerate([('x', 'interpolation'), ('xy', 'y'), ('nr', 'target', 'x')]):
+        g = random.Random(1500 + k)
+        base = sc.gen_model(g, kind='pair', with_table=True)
+        m = templatise(g, base)
+        vs = [x for x in m['sections'] if x[0][0] == 'Variables']
+        if not vs: m['sections'].insert(0, (('Variables',), [])); vs = [m['sections'][0]]
+        have = {e['key'][1] for e in vs[0][1]}
+        for n in names:
+            if n not in have: vs[0][1].append({'key': ('opt', n), 'frags': [('lit', '7')], 'val': None})
+        out.append({'model': m})
+    return out
+
 def coq_tstore(m, T, L):
     def fr(f):
         if f[0] == 'lit':
@@ -118,7 +134,7 @@ def coq_tstore(m, T, L):
 
 def correspond(ctx):
     rng = ctx['rng']
-    cases = [gen_case(rng) for _ in range(300 if ctx['thorough'] else 80)]
+    cases = corpus() + [gen_case(rng) for _ in range(300 if ctx['thorough'] else 80)]
     exprs, meta, dis = [], [], []
     for c in cases:
         T = sc.Tables(); L = []
@@ -181,6 +197,7 @@ def oracle(case):
     return fails
 
 def search_cases(rng, n):
+    for c in corpus(): yield c
     for _ in range(n // 4): yield gen_case(rng)
 def shadowed(case):
     """a ${NAME} placeholder used in a section that itself has an option called NAME"""
